@@ -1430,7 +1430,14 @@ func (m *Machine) callBuiltin(fr *frame, b *ssa.Builtin, args []Value) Value {
 			for i := range t {
 				c[i] = copyVal(t[i])
 			}
-			return append(a, c...)
+			r := append(a, c...)
+			if m.par != nil && len(a)+len(c) <= cap(a) {
+				// appended in place: the slots of the shared backing array are written
+				for i := len(a); i < len(r); i++ {
+					m.access(&r[i], true, fr, nil)
+				}
+			}
+			return r
 		case Str:
 			for i := range t.S {
 				a = append(a, t.at(i))
